@@ -37,11 +37,10 @@ def load_script(snap: Snapshot, wits=None):
         L.append("LG " + " ".join(hx(x) for x in sel) + " " + " ".join(map(str, wires)) + " " + pi)
     return L
 
-def model_sat(snaps_with_wits, name):
-    """[(label, Snapshot, wits)] -> {label: first bad row or None}; evaluated by
-    the extracted, proved-sound evaluator (C08_evaluator_decides_sat)."""
+def _model_sat_shard(args):
+    shard, name = args
     L = []
-    for label, snap, wits in snaps_with_wits:
+    for label, snap, wits in shard:
         L.append(f"prog {label}")
         L += load_script(snap, wits)
         L.append("sat")
@@ -53,6 +52,20 @@ def model_sat(snaps_with_wits, name):
         for l in lines:
             if l.startswith("SAT ok"): res[label] = None
             elif l.startswith("SAT bad"): res[label] = int(l.split()[2])
+    return res
+
+def model_sat(snaps_with_wits, name, shards=16):
+    """[(label, Snapshot, wits)] -> {label: first bad row or None}; evaluated by
+    the extracted, proved-sound evaluator (C08_evaluator_decides_sat)."""
+    from concurrent.futures import ThreadPoolExecutor
+    jobs = list(snaps_with_wits)
+    if not jobs: return {}
+    k = max(1, min(shards, len(jobs) // 8 or 1))
+    parts = [(jobs[i::k], f"{name}_{i}") for i in range(k)]
+    res = {}
+    with ThreadPoolExecutor(max_workers=k) as ex:
+        for r_ in ex.map(_model_sat_shard, parts):
+            res.update(r_)
     return res
 
 def forward_recompute(snap: Snapshot, wits, first_new, start_row=0):
@@ -97,3 +110,70 @@ def free_wire_probe(ck, name, snap: Snapshot, first_new, outputs, rng, max_targe
             return ("uniqueness", f"witness {t} can be changed (+outputs {changed}) and every row of the real layout is still satisfied",
                     {"perturbed_witness": t, "assignment": [hx(x) for x in w2], "changed_outputs": changed})
     return None
+
+# ---------------------------------------------------------------- generic re-witnessing on a REAL layout
+def _is_aeq(sel):
+    qm, ql, qr, qo, qf, qc, qar = sel[:7]
+    return qar == 1 and qm == 0 and ql == 1 and qr == R - 1 and qo == 0 and qf == 0 and qc == 0 and not any(sel[7:])
+
+def _is_bool(sel, wires):
+    qm, ql, qr, qo, qf, qc, qar = sel[:7]
+    return qar == 1 and qm == 1 and ql == 0 and qr == 0 and qo == R - 1 and qf == 0 and qc == 0 and wires[0] == wires[1] == wires[2]
+
+def rewitness(snap: Snapshot, wits, frozen=(), first_new=0):
+    """Recompute, in row order, every witness the honest generator derives from
+    earlier ones, leaving [frozen] (adversarially chosen) untouched:
+      * c wire of an arithmetic row with q_o != 0 when c is first used there;
+      * the accumulators of a range block from the current value of the wire
+        the closing assert_equal binds them to;
+      * the (lower, top_bit) split of an odd-width range check.
+    Works on whatever layout the real code emitted (also a mutated one)."""
+    w = list(wits)
+    frozen = set(frozen)
+    gates = snap.gates
+    seen = set()
+    i = 0
+    n = len(gates)
+    while i < n:
+        sel, wires = gates[i]
+        qm, ql, qr, qo, qf, qc, qar, qra = sel[:8]
+        if qra:
+            # range block: rows i..j-1 selected, row j closes the chain
+            j = i
+            while j < n and gates[j][0][7]: j += 1
+            if j < n:
+                flat = []
+                for k in range(i, j + 1):
+                    a, b, c, d = gates[k][1]
+                    flat += [d, c, b, a] if k < j else [d]
+                accs = [x for x in flat if x != 0]
+                # drop consecutive duplicates keeping order
+                seq_ = []
+                for x in accs:
+                    if not seq_ or seq_[-1] != x: seq_.append(x)
+                if j + 1 < n and _is_aeq(gates[j + 1][0]) and seq_ and gates[j + 1][1][0] == seq_[-1]:
+                    x = gates[j + 1][1][1]
+                    # odd-width pattern right after the closing assert_equal?
+                    if j + 4 < n and x not in frozen and x >= first_new:
+                        s1, w1 = gates[j + 2]; s2, w2 = gates[j + 3]; s3, w3 = gates[j + 4]
+                        if _is_bool(s1, w1) and s2[6] == 1 and s2[1] == 1 and s2[3] == R - 1 and w2[0] == x and w2[1] == w1[0] and _is_aeq(s3) and w3[0] == w2[2]:
+                            top = s2[2].bit_length() - 1
+                            if s2[2] == 1 << top:
+                                v = w[w3[1]]
+                                if x not in frozen: w[x] = v % (1 << top)
+                                if w1[0] not in frozen: w[w1[0]] = (v >> top) % R
+                    v = w[x]
+                    c = len(seq_)
+                    for t, a_ in enumerate(seq_):
+                        if a_ not in frozen and a_ >= first_new:
+                            w[a_] = ((v >> (2 * (c - 1 - t))) % (1 << (2 * (t + 1)))) % R
+                for k in range(i, j + 1): seen.update(gates[k][1])
+                i = j + 1
+                continue
+        a, b, c, d = wires
+        if qar and qo and c >= first_new and c not in seen and c not in (a, b, d) and c not in frozen and not any(sel[7:]):
+            x = (qm * w[a] * w[b] + ql * w[a] + qr * w[b] + qf * w[d] + qc + snap.pis.get(i, 0)) % R
+            w[c] = (-x * pow(qo, R - 2, R)) % R
+        seen.update(wires)
+        i += 1
+    return w
